@@ -42,6 +42,8 @@ type srvCfg struct {
 	stallPct   int  // % of synchronous answers whose transport write stalls until resumed
 	largePct   int  // % of requests (hence echoed answers) larger than the 1 KiB pooled write buffer
 	lazyResume bool // stalled writes are resumed reluctantly, so that several pile up
+	sched      []schedTok // enumerated schedule (C08 sweep): what the engine does, step by step
+	parkMask   int        // with sched: bit (2*conn+msg) set = that handler parks until released
 	tableForce *tableForce // enumerated registration table and message (C09 sweep)
 	malformedOnly []int // restrict undecodable messages to these kinds (indexes into malformedKinds)
 	idxRegs    bool // besides the catch-all, exact-index handlers for some commands (every message still has a handler)
@@ -49,6 +51,13 @@ type srvCfg struct {
 	tlsStall   bool // one more peer connects over TLS and never gets through its handshake
 	force      *srvForce // enumerated fault placement (sweep)
 	hdr        *hdrForce // enumerated request header (C16 sweep)
+}
+
+// schedTok is one step of an enumerated schedule: deliver the next whole message of a
+// connection, or release the handler parked on it.
+type schedTok struct {
+	conn int
+	op   byte // 'd' or 'r'
 }
 
 // tableForce pins the registration table (a subset of the registrations that could
@@ -153,6 +162,7 @@ type srvWorld struct {
 	regHist map[int]refRegs
 	needClock bool
 	reregLeft int
+	schedPos  int
 	extraRegLeft int
 	cnLeft int
 	deferred []*invocation
@@ -439,6 +449,9 @@ func (w *srvWorld) genConn(i int, dialled, late bool) *peerConn {
 		}
 		if wantFault == "panic" && k == faultPos {
 			sm.plan.panics = true
+		}
+		if cfg.sched != nil {
+			sm.plan.park = cfg.parkMask&(1<<(2*i+k)) != 0
 		}
 		if cfg.hdr != nil {
 			m.Flags, m.HbH, m.E2E = cfg.hdr.flags, cfg.hdr.hbh, cfg.hdr.e2e
@@ -796,7 +809,37 @@ func (w *srvWorld) runInner() {
 		if len(acts) > 1 {
 			e.NonTrivial()
 		}
-		a := acts[t.Pick(ws...)]
+		var a act
+		wholeMsg := false
+		if cfg.sched != nil {
+			// enumerated schedule: the next token decides; a token that is not enabled is skipped
+			if w.schedPos >= len(cfg.sched) {
+				break
+			}
+			tok := cfg.sched[w.schedPos]
+			w.schedPos++
+			found := -1
+			for i, c := range acts {
+				switch {
+				case tok.op == 'd' && c.kind == "connect" && c.pc.idx == tok.conn:
+					found = i
+					w.schedPos-- // connect first, the token stays
+				case tok.op == 'd' && c.kind == "deliver" && c.pc.idx == tok.conn:
+					found = i
+				case tok.op == 'r' && c.kind == "release" && c.inv.conn == tok.conn:
+					found = i
+				}
+				if found >= 0 {
+					break
+				}
+			}
+			if found < 0 {
+				continue
+			}
+			a, wholeMsg = acts[found], true
+		} else {
+			a = acts[t.Pick(ws...)]
+		}
 		switch a.kind {
 		case "connect":
 			w.connect(a.pc)
@@ -814,7 +857,11 @@ func (w *srvWorld) runInner() {
 			pc := a.pc
 			rem := pc.limit() - pc.sent
 			var k int
-			switch t.Pick(3, 2, 2, 2) {
+			sel := 3
+			if !wholeMsg {
+				sel = t.Pick(3, 2, 2, 2)
+			}
+			switch sel {
 			case 0:
 				k = rem
 			case 1:
